@@ -4,12 +4,14 @@ use serde_json::Value;
 pub type AreaFn = fn(&Value) -> Vec<Value>;
 
 mod ows;
+mod sockopt;
 mod time;
 
 pub fn lookup(name: &str) -> Option<AreaFn> {
     match name {
         "time" => Some(time::run),
         "ows" => Some(ows::run),
+        "sockopt" => Some(sockopt::run),
         _ => None,
     }
 }
